@@ -15,20 +15,20 @@ variable {α : Type} [Field α] [CharZero α]
 /-- What `buildSite` returns is well formed (given distinct column names in the input header). -/
 theorem buildSite_ok (samples : Option (List (String × Pop))) (project : Option (List Nat)) (cols : List String)
     (hnd : cols.Nodup) (cfg : SiteCfg) (h : buildSite samples project cols = .ok cfg) : CfgOk cfg := by
-  sorry
+  exact Sfs.buildSite_ok samples project cols hnd cfg h
 
 /-- shape_eq: without projection the output shape is `(2 n_1 + 1, …, 2 n_d + 1)`, `n_j` = number of listed
     samples of population `j`. -/
 theorem shape_eq (samples : Option (List (String × Pop))) (cols : List String) (cfg : SiteCfg)
     (h : buildSite samples none cols = .ok cfg) :
     cfg.outShape = (List.range (numPops cfg.map)).map (fun j => 2 * (cfg.map.filter (fun p => p.2 = j)).length + 1) := by
-  sorry
+  exact Sfs.buildSite_shape samples cols cfg h
 
 /-- The ALT counts of a well-formed record are a valid index of the output (never the `expect` panic). -/
 theorem alt_in_bounds (cfg : SiteCfg) (hc : CfgOk cfg) (hnp : cfg.projectTo = none) (gts : List GtRes)
     (hwf : RecWf cfg (.gts "" 0 gts)) :
     InB cfg.outShape (altCounts (numPops cfg.map) (selected cfg.map cfg.cols gts)) := by
-  sorry
+  exact Sfs.alt_in_bounds cfg hc.1 hnp gts hwf.1 hwf.2
 
 /-- run_eq_spec: entry `k` is exactly the number of records at which every selected sample has a complete biallelic
     genotype and population `j` carries `k_j` ALT alleles; nothing else contributes. -/
@@ -42,7 +42,11 @@ theorem run_eq_spec (cfg : SiteCfg) (hc : CfgOk cfg) (hnp : cfg.projectTo = none
               | some l => complete (selected cfg.map cfg.cols l) ∧
                   altCounts (numPops cfg.map) (selected cfg.map cfg.cols l) = k
               | none => false)).length : Nat) : α) := by
-  sorry
+  refine ⟨sumContrib cfg recs, createRun_spec cfg hc.2.2.2.2 false recs hok (fun h => by cases h),
+    sumContrib_length cfg recs, ?_⟩
+  intro k hk
+  rw [sumContrib_noproj_getD cfg hc.1 hnp recs hwf hok k hk]
+  rfl
 
 /-- unselected_irrelevant: genotypes (even ploidy errors) of samples that were not selected never influence a site. -/
 theorem unselected_irrelevant (cfg : SiteCfg) (gts gts' : List GtRes)
@@ -50,20 +54,24 @@ theorem unselected_irrelevant (cfg : SiteCfg) (gts gts' : List GtRes)
     (h : ∀ i, i < cfg.cols.length → (lookupPop cfg.map (cfg.cols.getD i "")).isSome →
           gts.getD i .ploidyError = gts'.getD i .ploidyError) :
     siteSpec cfg gts = siteSpec cfg gts' := by
-  sorry
+  exact siteSpec_congr cfg gts gts' (selected_congr cfg.map cfg.cols gts gts' hl hl' h)
 
 /-- incomplete_contributes_nothing: a record with a selected missing or multiallelic genotype adds nothing. -/
 theorem incomplete_contributes_nothing (cfg : SiteCfg) (hnp : cfg.projectTo = none) (gts : List GtRes)
     (h : complete (selected cfg.map cfg.cols gts) = false) (f : Nat) :
     (contrib (α := α) cfg gts).getD f 0 = 0 := by
-  sorry
+  apply contribOfSite_zero_getD
+  rw [siteSpec_noproj cfg hnp gts, h]
+  cases hasPloidyError (selected cfg.map cfg.cols gts) <;> simp
 
 /-- The values are whole numbers: total mass is a count of records, at most the number of records. -/
 theorem mass_le_records (cfg : SiteCfg) (hc : CfgOk cfg) (hnp : cfg.projectTo = none) (recs : List Rec)
     (hwf : ∀ r ∈ recs, RecWf cfg r) (hok : ∀ r ∈ recs, recOk cfg r = true) :
     ∃ scs n k, createRun (α := α) cfg false recs = .ok (scs, n, k) ∧
       scs.sum = ((recs.length - k : Nat) : α) ∧ k ≤ recs.length := by
-  sorry
+  refine ⟨sumContrib cfg recs, recs.length, (recs.filter (recSkipped cfg)).length,
+    createRun_spec cfg hc.2.2.2.2 false recs hok (fun h => by cases h),
+    sumContrib_noproj_sum cfg hc.1 hnp recs hwf hok, List.length_filter_le _ _⟩
 
 /-! non-vacuity: 2 populations of unequal size, 3 records, one skipped, an unselected ploidy error -/
 example :
